@@ -103,6 +103,23 @@ static void body(const symx::Case &c, const std::string &line) {
             symx::require(acyc, "C16:on-forest-edges-are-acyclic");
             symx::require(n - joined == comps, "C16:on-forest-edges-connect-every-component");
         }
+        // the same answers from a copy and from an index object that described another graph before (copy construction / assignment)
+        {
+            parmcb::ForestIndex<Graph> copy(fi);
+            Graph other_g;                      // two triangles and an isolated vertex: 3 components, dimension 2
+            for (int v = 0; v < 7; v++) boost::add_vertex(other_g);
+            boost::add_edge(0, 1, other_g); boost::add_edge(1, 2, other_g); boost::add_edge(0, 2, other_g);
+            boost::add_edge(3, 4, other_g); boost::add_edge(4, 5, other_g); boost::add_edge(3, 5, other_g);
+            parmcb::ForestIndex<Graph> assigned(other_g);
+            assigned = fi;
+            bool same = true;
+            for (auto *x : {&copy, &assigned}) {
+                if (x->weak_connected_components() != fi.weak_connected_components() || x->cycle_space_dimension() != fi.cycle_space_dimension()) same = false;
+                for (int i = 0; i < m && same; i++)
+                    if ((*x)(eidx[i]) != fi(eidx[i]) || x->is_on_forest(eidx[i]) != fi.is_on_forest(eidx[i])) same = false;
+            }
+            symx::require(same, "C16:copies-and-assigned-indices-answer-like-the-original");
+        }
     }
 }
 
